@@ -296,6 +296,7 @@ class Obligation:
 # z3 helpers
 # ----------------------------------------------------------------------------------------
 Z3_TIMEOUT_MS = 10000
+BRANCH_TIMEOUT_MS = 1500      # deciding a branch: an undecided condition simply forks
 
 
 _HEAVY_KINDS = None
@@ -485,10 +486,10 @@ class Path:
             if z3.is_false(t):
                 return False
             ctxt, tl = light(self.zc, t)
-            r1, _ = z3_check(ctxt, tl, 3000)
+            r1, _ = z3_check(ctxt, tl, BRANCH_TIMEOUT_MS)
             if r1 == z3.unsat:
                 return False
-            r2, _ = z3_check(ctxt, z3.Not(tl), 3000)
+            r2, _ = z3_check(ctxt, z3.Not(tl), BRANCH_TIMEOUT_MS)
             if r2 == z3.unsat:
                 return True
             k = self._choose(2, label or "zcase")
@@ -561,6 +562,19 @@ class Path:
         ob = Obligation(name, " ".join(self.sig), status, backend, time.time() - t0, det, wit, kind)
         self.ex.record(ob)
         return status == "proved"
+
+    def prove_any(self, name, alternatives, kind="ensures", detail=""):
+        """obligation: the disjunction of `alternatives` holds; each disjunct is tried on its own first
+        (keeps non-linear queries small), the full disjunction only if none is proved"""
+        t0 = time.time()
+        for alt in alternatives:
+            t = alt.t if isinstance(alt, ZAtom) else alt
+            st, _, _ = smt_prove(self.zc, t, 4000)
+            if st == "proved":
+                self.obl_count += 1
+                self.ex.record(Obligation(name, " ".join(self.sig), "proved", "z3", time.time() - t0, detail, None, kind))
+                return True
+        return self.prove(name, ZAtom(z3.Or([a.t if isinstance(a, ZAtom) else a for a in alternatives])), kind, detail)
 
     def safety(self, name, ok, detail=""):
         """a safety obligation decided syntactically/by construction by the executor"""
